@@ -478,6 +478,12 @@ func families(cfg *lib.Config, rng *lib.Rng) []family {
 		add("resolve-new-from-hash", "parsetype", 0, resolveNewFromHash(th))
 		add("resolve-typeset-variant-cycle", "parsetype", 0, typeSetVariantCycles())
 		add("resolve-typeset-illegal-parent", "parsetype", 0, typeSetIllegalParents())
+		// fifth wave (genhier.go): hierarchies of depth 1..3, Like types, hostile hash forms
+		add("resolve-equality", "parsetype", 0, equalityTexts)
+		add("resolve-hierarchy-errors", "parsetype", 0, resolveHierarchyErrors())
+		add("resolve-like", "parsetype", 0, likeTexts)
+		add("resolve-like-wide", "parsetype", 0, resolveLikeWide())
+		add("resolve-time-hash", "parsetype", 0, resolveTimeHash())
 	}
 	return fams
 }
